@@ -1,10 +1,12 @@
 """Determinism self-test: same program twice (different children, different
 parallelism, fresh interpreter) must give identical event-log digests."""
 
+import hashlib
 import importlib
 import json
 import os
 import random
+import re
 import subprocess
 import sys
 
@@ -20,14 +22,54 @@ def first_diff(a, b):
     return None
 
 
+ALL = ["C01", "C02", "C03", "C04", "C05", "C06", "C07", "C09", "C10", "C11", "C12", "C13", "C17", "C18", "C19", "C20"]
+VERIF = os.path.dirname(os.path.dirname(os.path.abspath(__file__)))
+
+
+_FLAGS = re.compile(r"(FLAGS(?:\.SILENT)? \()([^)]*)(\))")  # applied to the raw event text
+
+
+def norm_digest(log):
+    """Digest of an event log with the one legitimately hash-seed dependent thing
+    normalised: asimap renders a message's flags by iterating a set of str, so the
+    *order* of flags inside FLAGS (...) follows PYTHONHASHSEED (the replay contract
+    pins it to 0). Everything else - schedule, timing, I/O order - must be equal."""
+    h = hashlib.sha256()
+    for item in log or []:
+        item = [_FLAGS.sub(lambda m: m.group(1) + " ".join(sorted(m.group(2).split())) + m.group(3), x) if isinstance(x, str) else x for x in item] if isinstance(item, list) else item
+        h.update(json.dumps(item, default=str).encode())
+    return h.hexdigest()
+
+
+def worker_main(argv):
+    """selftest-worker <check> <programs.json> <out.json> <procs>"""
+    cid, src, dst, procs = argv[0], argv[1], argv[2], int(argv[3])
+    mod = importlib.import_module(f"checks.{cid.lower()}")
+    progs = json.load(open(src))
+    res = {}
+
+    def on(job, out):
+        res[str(job["k"])] = {"digest": out.get("digest"), "ndigest": norm_digest(out.get("log")), "n": len(out.get("log") or []), "err": out.get("harness_error")}
+
+    Pool(mod, procs, wall=120, opts={"keep_log": True, "return_log": True}).run([{"program": p, "k": k} for k, p in enumerate(progs)], on)
+    json.dump({"hashseed": os.environ.get("PYTHONHASHSEED"), "res": res}, open(dst, "w"))
+    import shutil
+    from harness.driver import scratch_base
+
+    shutil.rmtree(scratch_base(), ignore_errors=True)
+    return 0
+
+
 def selftest_main(argv):
-    checks = [a for a in argv if a.upper().startswith("C") and a[1:].isdigit()] or ["C01", "C04", "C05", "C13", "C17"]
+    checks = [a.upper() for a in argv if a.upper().startswith("C") and a[1:].isdigit()] or ALL
     n = int(os.environ.get("SELFTEST_N", "40"))
     seed = int(os.environ.get("VERIF_SEED", "7"))
     seeds_only = [int(a[5:]) for a in argv if a.startswith("seed=")]
     kf = KnownFindings()
     bad = 0
     total = 0
+    per = {}
+    flagorder = 0
     for cid in checks:
         mod = importlib.import_module(f"checks.{cid.lower()}")
         r = random.Random(seed)
@@ -48,9 +90,36 @@ def selftest_main(argv):
 
         Pool(mod, 16, wall=120, opts={"keep_log": True, "return_log": True}).run([{"program": p, "k": k} for k, p in enumerate(progs)], collect("p16"))
         Pool(mod, 2, wall=120, opts={"keep_log": True, "return_log": True}).run([{"program": p, "k": k} for k, p in enumerate(progs)], collect("p2"))
+        # third run: fresh interpreter under a different PYTHONHASHSEED, other worker count
+        from harness.driver import scratch_base
+
+        sb = scratch_base()
+        os.makedirs(sb, exist_ok=True)
+        src = os.path.join(sb, f"selftest-{cid}-in.json")
+        dst = os.path.join(sb, f"selftest-{cid}-out.json")
+        json.dump(progs, open(src, "w"), default=str)
+        env = dict(os.environ, PYTHONHASHSEED="4242", VERIF_ALLOW_HASHSEED="1")
+        wr = subprocess.run([sys.executable, "-X", "faulthandler", os.path.join(VERIF, "harness", "main.py"), "selftest-worker", cid, src, dst, "5"], env=env, capture_output=True, text=True)
+        fresh = {}
+        if wr.returncode == 0 and os.path.exists(dst):
+            fresh = json.load(open(dst))["res"]
+        else:
+            print("fresh-interpreter worker failed:", wr.returncode, (wr.stdout + wr.stderr)[-500:])
+            bad += 1
+        for f in (src, dst):
+            try:
+                os.unlink(f)
+            except OSError:
+                pass
         for k, p in enumerate(progs):
             total += 1
             a, b = res[k].get("p16", {}), res[k].get("p2", {})
+            c = fresh.get(str(k), {})
+            if c.get("digest") != a.get("digest"):
+                flagorder += 1
+            if c.get("ndigest") != norm_digest(a.get("log")):
+                bad += 1
+                print(f"NONDETERMINISTIC-ACROSS-INTERPRETERS {cid} seed={p['seed']} events {len(a.get('log') or [])} vs {c.get('n')} err={c.get('err')}")
             if a.get("digest") != b.get("digest") or a.get("digest") is None:
                 bad += 1
                 print(f"NONDETERMINISTIC {cid} seed={p['seed']} digests {a.get('digest')} {b.get('digest')} err={a.get('harness_error') or b.get('harness_error')}")
@@ -62,6 +131,24 @@ def selftest_main(argv):
                         print("    =", json.dumps(a["log"][j])[:300])
                     print("    A", json.dumps(x)[:400])
                     print("    B", json.dumps(y)[:400])
-        print(f"{cid}: {len(progs)} programs x 2 runs compared")
-    print(f"selftest: {total} programs, {bad} nondeterministic")
+        print(f"{cid}: {len(progs)} programs x 3 runs compared (16 procs, 2 procs, fresh interpreter PYTHONHASHSEED=4242 with 5 procs)")
+        per[cid] = len(progs)
+        sys.stdout.flush()
+    print(f"selftest: {total} programs, {bad} nondeterministic ({flagorder} differ under another PYTHONHASHSEED only in the order of flags inside FLAGS (...))")
+    if not seeds_only:
+        out = os.path.join(VERIF, "selftest_results.json")
+        prev = {}
+        if os.path.exists(out):
+            try:
+                prev = json.load(open(out)).get("per_check", {})
+            except Exception:
+                prev = {}
+        for cid, k in per.items():
+            prev[cid] = {"programs": k, "runs_each": 3, "seed": seed, "nondeterministic": None}
+        json.dump({"what": "determinism self-test: each generated program executed three times (16 workers, 2 workers, fresh interpreter under PYTHONHASHSEED=4242 with 5 workers); event-log digests compared",
+                   "per_check": prev, "flag_order_only_differences_under_other_hashseed": flagorder, "last_run_total": total, "last_run_nondeterministic": bad}, open(out, "w"), indent=1)
+    import shutil
+    from harness.driver import scratch_base
+
+    shutil.rmtree(scratch_base(), ignore_errors=True)
     return 0 if bad == 0 else 3
